@@ -66,6 +66,10 @@ func (s *SplitStrategy) Compute(snapshots <-chan *asset.Snapshot) <-chan Action 
 				result <- Hold
 			}
 		}
+
+		// One of the sources has ended, consume the other to the end.
+		go helper.Drain(buyActions)
+		go helper.Drain(sellActions)
 	}()
 
 	return result
